@@ -126,6 +126,8 @@ CLAUSES = ["if", "elif1", "elif2", "elif3", "else", "for", "for_else", "while", 
            "case1", "case2", "async_for", "async_with", "nested_elif_try"]
 STMTS = {
     "import": "import os.path as osp", "import_multi": "import os, sys as system, json", "from_import": "from collections import OrderedDict as OD, deque", "from_rel": "from . import sibling",
+    # relative imports that reach the top-level package and beyond it (valid syntax; CPython only refuses them when executed)
+    "from_rel_mod": "from .sibling import X", "from_rel2": "from .. import sibling", "from_rel3": "from ...shared.util import helper as h", "from_rel9": "from ......... import deep",
     "from_star": "from os.path import *" , "return": "return a", "raise": "raise ValueError(a)", "assign": "a = b + 1", "augassign": "a += 1", "annassign": "a: int = 1", "expr_call": "print(a, b)",
     "def": "def inner(x):\n    return x", "class": "class Inner:\n    y = 1", "lambda": "f = lambda x: x + a", "listcomp": "c = [x for x in range(a) if x]", "dictcomp": "c = {x: x for x in range(a)}",
     "genexp": "c = sum(x for x in range(a))", "with": "with open(a) as fh:\n    b = fh.read()", "assert": "assert a, b", "del": "del a", "global": "global G", "pass": "pass", "fstring": "c = f\"{a!r:>{b}}\"",
@@ -193,8 +195,18 @@ def shape_run(files, root, timeout):
     shutil.rmtree(root, ignore_errors=True)
     os.makedirs(os.path.join(root, "proj"))
     open(os.path.join(root, "proj", "sibling.py"), "w").write("X = 1\n")
+    # a root marker makes `proj` the project root, so `from .. import x` in a top-level module reaches above it;
+    # the relative-import cells are also placed two packages deep
+    open(os.path.join(root, "proj", "requirements.txt"), "w").write("")
     for fn, text in files.items():
         open(os.path.join(root, "proj", fn), "w").write(text)
+        if "_from_rel" in fn:
+            d = os.path.join(root, "proj", "pkg", "inner")
+            os.makedirs(d, exist_ok=True)
+            for dd in (os.path.join(root, "proj", "pkg"), d):
+                open(os.path.join(dd, "__init__.py"), "w").write("")
+            open(os.path.join(d, "sibling.py"), "w").write("X = 1\n")
+            open(os.path.join(d, fn), "w").write(text)
     rc, so, se, secs = run_cli(["analyze", "--json", "--no-open", "--min-complexity", "1", "proj"], root, timeout)
     shutil.rmtree(root, ignore_errors=True)
     if rc is None:
@@ -398,7 +410,7 @@ def run(tier, seed, replay=None):
     res.coverage.update({
         "evaluations": hist["alone_runs"] + hist["mixed_runs"],
         "distinct_nontrivial": len(nontrivial),
-        "rule": "VALID shapes: the clause x statement matrix (22 clause positions incl. 2nd/3rd elif, loop-else, except/finally, match cases, async; 35 statement kinds incl. every import form; inside a function and at module level; only cells CPython compiles) analysed as one project with all analyses, bisected to one cell on failure; malformed stream: 144 clause-body defects (every compound-statement clause kind x {comment-only body, no body, blank body} x {inside a def, top level}) + 50 hand-picked shapes (empty, NUL, BOMs, UTF-16, invalid UTF-8, unterminated strings, broken blocks, CR/CRLF, nesting of parens/brackets/blocks/defs/"
+        "rule": "VALID shapes: the clause x statement matrix (22 clause positions incl. 2nd/3rd elif, loop-else, except/finally, match cases, async; 39 statement kinds incl. every import form and relative imports that reach the project root (marker file) and beyond, at depth 0 and depth 2; inside a function and at module level; only cells CPython compiles) analysed as one project with all analyses, bisected to one cell on failure; malformed stream: 144 clause-body defects (every compound-statement clause kind x {comment-only body, no body, blank body} x {inside a def, top level}) + 50 hand-picked shapes (empty, NUL, BOMs, UTF-16, invalid UTF-8, unterminated strings, broken blocks, CR/CRLF, nesting of parens/brackets/blocks/defs/"
                 "classes/try up to several thousand levels, chains of attributes/calls/operators/elif/decorators up to 20000 links, 60000-line function, 4000 functions) + byte-level "
                 "mutations of valid generated modules (truncate, flip, delete, insert token, duplicate span, shuffle lines, random bytes, block body replaced by a comment or nothing); each file alone under a random analysis selection and "
                 "output format, every second one also mixed into a project of 5 valid files at a random position (per-file results of the valid files must equal the reference run)",
